@@ -5,8 +5,11 @@ package providers
 import (
 	"net"
 	"net/http"
+	"reflect"
 	"time"
+	"unsafe"
 
+	"github.com/buzzfeed/sso/internal/auth/circuit"
 	admin "google.golang.org/api/admin/directory/v1"
 )
 
@@ -24,15 +27,31 @@ func VerifRelaxClientTimeouts() {
 	}
 }
 
-// VerifUseRealAdminService gives the Google provider the real GoogleAdminService, built the way
-// NewGoogleProvider builds it (same breaker), but over the given HTTP client instead of one that
-// needs service-account credentials, and with the breaker's wall clock frozen.
+// VerifUseRealAdminService points the Google provider's directory client at the given HTTP client and
+// freezes the wall clock of every circuit breaker the provider and its admin service hold. The provider
+// should have been built by NewGoogleProvider WITH a credentials file, so that the admin service is the
+// one production code constructs (whatever fields that constructor sets stay as they are); only the
+// Admin SDK client inside it — which would need real service-account credentials — is replaced.
 func VerifUseRealAdminService(p *GoogleProvider, client *http.Client) error {
 	svc, err := admin.New(client)
 	if err != nil {
 		return err
 	}
-	p.cb.VerifFreezeClock(time.Date(2030, 1, 1, 0, 0, 0, 0, time.UTC))
-	p.AdminService = &GoogleAdminService{adminService: svc, cb: p.cb}
+	gs, ok := p.AdminService.(*GoogleAdminService)
+	if !ok {
+		gs = &GoogleAdminService{cb: p.cb}
+		p.AdminService = gs
+	}
+	gs.adminService = svc
+	at := time.Date(2030, 1, 1, 0, 0, 0, 0, time.UTC)
+	for _, holder := range []interface{}{p, gs} {
+		v := reflect.ValueOf(holder).Elem()
+		for i := 0; i < v.NumField(); i++ {
+			f := v.Field(i)
+			if f.Type() == reflect.TypeOf((*circuit.Breaker)(nil)) && !f.IsNil() {
+				reflect.NewAt(f.Type(), unsafe.Pointer(f.UnsafeAddr())).Elem().Interface().(*circuit.Breaker).VerifFreezeClock(at)
+			}
+		}
+	}
 	return nil
 }
